@@ -203,6 +203,8 @@ class Encoder:
                     if ev == 'Spawn':
                         self.outgoing.add(e['peer'])
                     out.append(dict(base, e='Connect', k=k, inc=(ev == 'Accept'), **self.mstate(e)))
+                elif ev == 'AcceptDup':
+                    out.append(dict(base, e='ConnectDup', k=k, **self.mstate(e)))
                 elif ev in ('Rotate', 'RotateSkip'):
                     m = self.mstate(e)
                     out.append(dict(base, e='Rotate', k='', order=[self.name(a) for a, _ in e.get('order', [])],
